@@ -1,4 +1,5 @@
 import DicomModel.Lemmas.DsReaderPos
+import DicomModel.Lemmas.LazyPos
 /-
 C07 — odd-length values are handled per strategy and reading stays aligned; `position()` = bytes consumed.
 
@@ -17,6 +18,9 @@ Headline theorems
 * `element_read`               an element is read whole: header token, value token, source = what follows
 * `accept_consumes_declared`, `next_even_plus_one`, `fail_errors`, `item_length_by_strategy`
 * `aligned_after`              the next header is decoded from the byte after the declared / evened length
+* `position_exact_lazy`        the same invariant for the lazy reader (C06's model, imported), whatever the consumer
+                               does with each announced value (`into_owned` or `skip`); `skipped_short_value_position`:
+                               its side condition is needed
 -/
 set_option linter.unusedSimpArgs false
 set_option linter.unusedVariables false
@@ -64,10 +68,6 @@ theorem next_tok_exact (cfg : Cfg) (D : Dec σ) (hD : HdrExact D) :
           have hge := headerStep_go_exact hr hs
           have := ih _ s2 t x' (ItemReadOk_of_stack_nil hge.2) h
           exact (hg.1.trans hge.1).trans this
-
-def Out.isTok : Out → Bool
-  | .tok _ => true
-  | _ => false
 
 /-- along a run, every fragment / offset table that is read lies inside the source -/
 def ItemReadsOk (cfg : Cfg) (D : Dec σ) : Nat → σ × RSt → Prop
@@ -468,3 +468,102 @@ example : ItemReadsOk (wCfg7 .accept .preserved) (plainDec .explicitLE fun _ => 
   decide
 
 end Dicom.Rd
+
+/-! ### the lazy reader (model of the C06 builder: Model/LazyReader.lean) -/
+
+namespace Dicom.LP
+open Dicom.DC
+
+/-- `P` of the content, if any -/
+def OptAll {α : Type} : Option α → (α → Prop) → Prop
+  | none, _ => True
+  | some a, P => P a
+
+instance {α : Type} (o : Option α) (P : α → Prop) [∀ a, Decidable (P a)] : Decidable (OptAll o P) := by
+  cases o <;> simp only [OptAll] <;> infer_instance
+
+/-- the token `advance` announces, if any -/
+def announced (s : LState) : Option (LTok × LState) :=
+  match s.advance with
+  | (some (.ok t), s') => some (t, s')
+  | _ => none
+
+/-- the reader once the consumer is done with the announced value, if it succeeds -/
+def consumed? (u : Use) (t : LTok) (s' : LState) : Option LState :=
+  match consumeTok u t s'.dec with
+  | .ok (_, d) => some { s' with dec := d }
+  | .error _ => none
+
+/-- along a lazy run, `ValueInside` at every token -/
+def ValuesInside (use : Nat → Use) : Nat → Nat → LState → Prop
+  | 0, _, _ => True
+  | fuel + 1, k, s =>
+    OptAll (announced s) fun p =>
+      ValueInside (use k) p.1 p.2.dec ∧
+        OptAll (consumed? (use k) p.1 p.2) fun s'' => ValuesInside use fuel (k + 1) s''
+
+instance instDecValuesInside (use : Nat → Use) : (fuel k : Nat) → (s : LState) → Decidable (ValuesInside use fuel k s)
+  | 0, _, _ => isTrue trivial
+  | fuel + 1, k, s =>
+    have := fun s'' => instDecValuesInside use fuel (k + 1) s''
+    by unfold ValuesInside; exact inferInstance
+
+/-- **position_exact_lazy** — after every token of the lazy reader, once the consumer has read or skipped
+the announced value, `position() = base + bytes consumed` — for every byte string, every consumer policy,
+provided the values that go through `io::copy` lie inside the source -/
+theorem position_exact_lazy (use : Nat → Use) (base total : Nat) :
+    ∀ fuel k s, s.dec.pos + s.dec.rest.length = base + total → base ≤ s.dec.pos →
+      ValuesInside use fuel k s →
+      ∀ r ∈ lazyRun use total fuel k s, r.pos = base + r.consumed := by
+  intro fuel
+  induction fuel with
+  | zero => intro k s _ _ _ r hr; simp [lazyRun] at hr
+  | succ fuel ih =>
+    intro k s hinv hb hok r hr
+    unfold lazyRun at hr
+    unfold ValuesInside announced at hok
+    rcases ha : s.advance with ⟨res, s'⟩
+    rw [ha] at hr hok
+    cases res with
+    | none => simp at hr
+    | some x =>
+      cases x with
+      | error e => simp at hr
+      | ok t =>
+        simp only [OptAll] at hr hok
+        obtain ⟨hin, hok2⟩ := hok
+        have h1 := advance_exact ha
+        unfold consumed? at hok2
+        rcases hc : consumeTok (use k) t s'.dec with e | ⟨o, d⟩
+        · rw [hc] at hr; simp at hr
+        · rw [hc] at hr hok2
+          simp only [OptAll] at hr hok2
+          have h2 := consume_exact hin hc
+          have h12 := h1.trans h2
+          rcases List.mem_cons.mp hr with hr | hr
+          · subst hr; simp only; have := h12.1; have := h12.2; omega
+          · exact ih (k + 1) { s' with dec := d } (by have := h12.1; simp only; omega)
+              (Nat.le_trans hb h12.2) hok2 r hr
+
+/-- Explicit VR LE: (0008,0060) CS declaring 4 bytes, 2 present -/
+def wShortValue : Bytes := [0x08, 0x00, 0x60, 0x00, 0x43, 0x53, 4, 0, 0x43, 0x54]
+
+/-- `ValuesInside` is needed: a consumer that `skip`s an element value reaching beyond the end of the source
+is left with `position = 12` after 10 bytes (same `io::copy` as in `truncated_fragment_position`) -/
+theorem skipped_short_value_position :
+    (lazyRun (fun _ => .skip) 10 5 0 (LState.new .explicitLE (fun _ => none) wShortValue)).map
+        (fun r => (r.pos, r.consumed)) = [(8, 8), (12, 10)] := by
+  decide
+
+/-- … while reading the same value is an error, not a token -/
+theorem read_short_value_errors :
+    (lazyRun (fun _ => .read) 10 5 0 (LState.new .explicitLE (fun _ => none) wShortValue)).map
+        (fun r => (r.pos, r.consumed)) = [(8, 8)] := by
+  decide
+
+/-- `ValuesInside` holds along the run over a complete stream, values skipped and read alternately -/
+example : ValuesInside (fun k => if k % 4 = 1 then .skip else .read) 6 0
+    (LState.new .explicitLE (fun _ => none) Dicom.Rd.wOddUs) := by
+  decide
+
+end Dicom.LP
